@@ -114,14 +114,19 @@ def transport_cases(tier, rng):
     for n in (3, 4):
         vs = oracles.names(n)
         pairs = list(itt.combinations(vs, 2))
-        masks = range(1 << len(pairs)) if n == 3 or tier == "thorough" else [rng.randrange(1 << len(pairs)) for _ in range(160)]
+        masks = range(1 << len(pairs)) if n == 3 or tier == "thorough" else [rng.randrange(1 << len(pairs)) for _ in range(260)]
         for dm, rep_ in itt.product(masks, range(4 if n == 3 else 3)):
             d = [p for k, p in enumerate(pairs) if dm >> k & 1]
             x, y = rng.sample(vs, 2)
-            xs = [x] if rng.random() < 0.7 else sorted({x, rng.choice([v for v in vs if v != y])})
+            xs = [x] if rng.random() < 0.5 else sorted({x, rng.choice([v for v in vs if v != y])})
             u = rng.sample(pairs, rng.choice([0, 0, 1, 1, 2]))
             z1, w1 = rng.choice(vs), rng.choice(vs)
             exps, surr = {"pi1": [z1]}, {"pi1": sorted({w1, rng.choice(vs)}) if rng.random() < 0.3 else [w1]}
+            if rng.random() < 0.35:
+                # an experiment on one of the treatments observed on (almost) every other node: the derivation then enters the source
+                # domain (line 6) and continues inside it (lines 10, 9)
+                z1 = rng.choice(xs)
+                exps, surr = {"pi1": [z1]}, {"pi1": [v for v in vs if v != z1 and rng.random() < 0.85] or [y]}
             if rng.random() < 0.3:
                 exps["pi2"], surr["pi2"] = [rng.choice(vs)], [rng.choice(vs)]
             x = xs
@@ -133,6 +138,24 @@ def transport_cases(tier, rng):
                 c = {"nodes": r(vs), "directed": [r(e) for e in d], "undirected": [r(e) for e in u], "X": r(x), "Y": r([y]),
                      "experiments": {k: r(v) for k, v in exps.items()}, "surrogates": {k: r(v) for k, v in surr.items()}}
             yield c
+
+
+def transport_cases_two_treatments(tier, rng):
+    """4-node ADMGs, two treatments, an experiment on one of them observed on (almost) every other node: the derivation enters the source
+    domain (line 6) and continues inside it (lines 10 and 9); about 1 in 200 of these exposes a defect on that path."""
+    import itertools as itt
+    vs = oracles.names(4)
+    pairs = list(itt.combinations(vs, 2))
+    for _ in range(900 if tier == "quick" else 12000):
+        order = rng.sample(vs, 4)
+        pos = {v: i for i, v in enumerate(order)}
+        d = [[a, b] if pos[a] < pos[b] else [b, a] for a, b in pairs if rng.random() < 0.5]
+        u = [list(e) for e in rng.sample(pairs, rng.choice([1, 1, 2]))]
+        y = rng.choice(vs)
+        xs = rng.sample([v for v in vs if v != y], 2)
+        z = rng.choice(xs)
+        W = [v for v in vs if v != z and rng.random() < 0.9] or [y]
+        yield {"nodes": vs, "directed": d, "undirected": u, "X": sorted(xs), "Y": [y], "experiments": {"pi1": [z]}, "surrogates": {"pi1": W}}
 
 
 def _eval_tr(c):
@@ -180,7 +203,7 @@ def extra(rep, repo, registry, known_open):
                 errs.append(err)
             elif why:
                 fails.append((c, why, "star"))
-        tr_cases = list(transport_cases(rep.tier, rng))
+        tr_cases = list(transport_cases(rep.tier, rng)) + list(transport_cases_two_treatments(rep.tier, rng))
         for c, why, err in pool.imap_unordered(_eval_tr, tr_cases, chunksize=16):
             if err:
                 errs.append(err)
